@@ -58,6 +58,10 @@ def family_s(tier, seed):
     for op in ops_i:
         out.append(dict(src=f"export function f(int a) -> int {{ return a {op} K0; }}", name=f"S a{op}K", tags=["S", "wide-constant"]))
         out.append(dict(src=f"export function f(int a) -> int {{ return K0 {op} a; }}", name=f"S K{op}a", tags=["S", "wide-constant"]))
+    # unsigned operands over the whole 32-bit range: the signed and the unsigned instruction differ when the top bit is set
+    for op in ("/", "<", ">", "=="):
+        out.append(dict(src=f"export function f(uint a, uint b) -> {'uint' if op == '/' else 'int'} {{ return a {op} b; }}", name=f"S uint {op} uint (wide)", tags=["S", "wide-uint"]))
+        out.append(dict(src=f"export function f(int a, int b) -> int {{ return a {op} b; }}", name=f"S int {op} int (before/after the unsigned one)", tags=["S"]))
     out.append(dict(src="export function f() -> int { return K0; }", name="S K", tags=["S", "wide-constant"]))
     out.append(dict(src="export function f(int a) -> int { a = K0; return a; }", name="S store K to argument", tags=["S", "wide-constant"]))
     out.append(dict(src="export function f(int a, int b) -> int { a = a + b; b = a * K0; return a - b; }", name="S argument stores", tags=["S"]))
